@@ -721,6 +721,7 @@ int main(int argc, char** argv){
   const std::string mode = argc > 1 ? argv[1] : "split";
   face_type_parameters ft; ft.name_ = "apical"; ft.face_type_global_id_ = 0;
   auto ct = std::make_shared<cell_type_parameters>(); ct->name_ = "epithelial"; ct->global_type_id_ = 0; ct->add_face_type(ft);
+  { face_type_parameters ft2 = ft; ft2.name_ = "basal"; ft2.face_type_global_id_ = 1; ct->add_face_type(ft2); }
   std::vector<double> pos; std::vector<unsigned> faces; icosphere(1.0, mode == "dimple" ? 2 : 1, pos, faces);
   if(mode == "dimple"){ for(size_t k = 0; k < pos.size() / 3; k++) if(pos[3*k+2] > 0.3) pos[3*k+2] = 0.6 - pos[3*k+2]; }     // cap reflected into the ball: a deep invagination
   auto c = std::make_shared<epithelial_cell>(pos, faces, 0, ct); c->initialize_cell_properties(true);
@@ -742,7 +743,24 @@ int main(int argc, char** argv){
     return vol0;
   };
   try{
-    if(mode == "split"){ local_mesh_refiner lmr(0.1, 0.4, false); pass(lmr, "split pass"); }
+    if(mode == "split"){
+      // two face labels (upper / lower half of the sphere): a split-only pass must hand the label of each triangle to the triangles it is cut into
+      struct tri { vec3 a, b, c; unsigned short label; };
+      std::vector<tri> old_faces;
+      for(face& f: c->face_lst_){ if(!f.is_used()) continue; auto [i,j,k] = f.get_node_ids(); const vec3& A = c->node_lst_[i].pos_; const vec3& B = c->node_lst_[j].pos_; const vec3& C = c->node_lst_[k].pos_;
+        unsigned short lab = ((A + B + C).dz() > 0) ? 0 : 1; f.set_face_type_id(lab); old_faces.push_back({A, B, C, lab}); }
+      local_mesh_refiner lmr(0.1, 0.4, false); pass(lmr, "split pass");
+      int wrong = 0;
+      for(const face& f: c->get_face_lst()){ if(!f.is_used()) continue; auto [i,j,k] = f.get_node_ids(); const vec3 g = (c->node_lst_[i].pos_ + c->node_lst_[j].pos_ + c->node_lst_[k].pos_) / 3.;
+        int best = -1; double bestd = 1e300;
+        for(size_t t = 0; t < old_faces.size(); t++){ const tri& T = old_faces[t]; vec3 n = (T.b - T.a).cross(T.c - T.a); double nn = n.dot(n); if(nn == 0) continue;
+          double d = std::fabs((g - T.a).dot(n)) / std::sqrt(nn);
+          double w0 = (T.b - g).cross(T.c - g).dot(n) / nn, w1 = (T.c - g).cross(T.a - g).dot(n) / nn, w2 = (T.a - g).cross(T.b - g).dot(n) / nn;
+          if(w0 < -1e-9 || w1 < -1e-9 || w2 < -1e-9) continue;
+          if(d < bestd){ bestd = d; best = (int)t; } }
+        if(best >= 0 && bestd < 1e-9 && f.get_local_face_type_id() != old_faces[best].label) wrong++; }
+      if(wrong){ printf("FAIL %d triangles do not carry the face-type label of the triangle they were cut from\n", wrong); bad = 1; }
+    }
     else if(mode == "dimple"){ local_mesh_refiner lmr(1e-4, 0.2, false); double v0 = pass(lmr, "split pass on a cell with an invagination");
       if(std::fabs(signed_volume(c) - v0) > 1e-9 * std::fabs(v0)){ printf("FAIL splits changed the enclosed volume %g -> %g\n", v0, signed_volume(c)); bad = 1; } }
     else if(mode == "swap"){
